@@ -115,6 +115,19 @@ def run_shard(shard, out_base):
     for b in bics[part::parts]:
         J(b, "B1reg")
     mon.tally("registry_bics", len(bics[part::parts]))
+    # texts that have just been accepted by the *other* class in this process (IBAN) are judged as BICs
+    S_ = judge.lib()
+    tab_ = data.countries()
+    for cc_ in sorted(tab_)[part::parts][:12]:
+        t_ = R.make_iban(cc_, gen.random_bban(tab_[cc_], rng))
+        for f_ in (lambda: S_.IBAN(t_), lambda: S_.IBAN(t_, allow_invalid=True).is_valid, lambda: S_.IBAN(t_).bic):
+            try:
+                f_()
+            except Exception:  # noqa: BLE001, S110
+                pass
+        J(t_, "after_accepted_as_iban")
+        J(t_[:11], "after_accepted_as_iban")
+        J(t_[:8], "after_accepted_as_iban")
     # B1/B4 every ISO code and every letter pair at positions 5-6
     pairs = [a + b for a in R.UPPER for b in R.UPPER]
     for cc in pairs[part::parts]:
